@@ -61,3 +61,63 @@ impl UserFunction for ProbeFn {
 pub fn probe(name: &'static str, cacheable: bool, handler: &Handler) -> ProbeFn {
     ProbeFn { name, cacheable, cacheable_flag: None, cacheable_script: None, handler: handler.clone() }
 }
+
+/// Zero-sized user functions (unit structs, as in the crate's own documentation): nothing in them
+/// can tell two of them apart except their type and name.  `zd` doubles, `zt` triples, `zn` negates
+/// (not cacheable); each counts its invocations in a static.
+pub mod zst {
+    use async_trait::async_trait;
+    use reval::prelude::*;
+    use std::sync::atomic::{AtomicUsize, Ordering};
+    pub static CALLS: [AtomicUsize; 3] = [AtomicUsize::new(0), AtomicUsize::new(0), AtomicUsize::new(0)];
+    pub fn reset() {
+        for c in &CALLS {
+            c.store(0, Ordering::SeqCst);
+        }
+    }
+    pub fn calls() -> [usize; 3] {
+        [CALLS[0].load(Ordering::SeqCst), CALLS[1].load(Ordering::SeqCst), CALLS[2].load(Ordering::SeqCst)]
+    }
+    fn arith(p: Value, f: impl Fn(i128) -> i128) -> FunctionResult {
+        match p {
+            Value::Int(i) => Ok(Value::Int(f(i))),
+            other => Ok(Value::Vec(vec![other])),
+        }
+    }
+    pub struct ZDouble;
+    pub struct ZTriple;
+    pub struct ZNegate;
+    #[async_trait]
+    impl UserFunction for ZDouble {
+        async fn call(&self, p: Value) -> FunctionResult {
+            CALLS[0].fetch_add(1, Ordering::SeqCst);
+            arith(p, |i| i * 2)
+        }
+        fn name(&self) -> &'static str {
+            "zd"
+        }
+    }
+    #[async_trait]
+    impl UserFunction for ZTriple {
+        async fn call(&self, p: Value) -> FunctionResult {
+            CALLS[1].fetch_add(1, Ordering::SeqCst);
+            arith(p, |i| i * 3)
+        }
+        fn name(&self) -> &'static str {
+            "zt"
+        }
+    }
+    #[async_trait]
+    impl UserFunction for ZNegate {
+        async fn call(&self, p: Value) -> FunctionResult {
+            CALLS[2].fetch_add(1, Ordering::SeqCst);
+            arith(p, |i| -i)
+        }
+        fn name(&self) -> &'static str {
+            "zn"
+        }
+        fn cacheable(&self) -> bool {
+            false
+        }
+    }
+}
